@@ -1,7 +1,13 @@
 #!/bin/bash
 # Runs the repository's test suite and checks that all 35 baseline tests pass.
 export GOFLAGS=-mod=mod GOPROXY=off GOSUMDB=off GOTOOLCHAIN=local
-cd ${1:-/repo} && go test -json -vet=off -count=1 -timeout 25m ./... 2>/dev/null > /tmp/baseline.$$.json
+# the gmtls tests bind fixed ports: run in a private network namespace when possible so that concurrent runs do not collide
+cd ${1:-/repo} || exit 2
+if unshare -rn true 2>/dev/null; then
+  unshare -rn sh -c 'ip link set lo up; exec go test -json -vet=off -count=1 -timeout 25m ./...' 2>/dev/null > /tmp/baseline.$$.json
+else
+  go test -json -vet=off -count=1 -timeout 25m ./... 2>/dev/null > /tmp/baseline.$$.json
+fi
 python3 - /tmp/baseline.$$.json <<'PY'
 import json,sys
 want=set(json.load(open('/root/.vp/BASELINE.json'))['stable_pass'])
@@ -16,4 +22,7 @@ print('baseline pass %d/%d'%(len(want&got),len(want)))
 for m in sorted(miss): print('MISSING',m)
 sys.exit(1 if miss else 0)
 PY
-rc=$?; rm -f /tmp/baseline.$$.json; exit $rc
+rc=$?; rm -f /tmp/baseline.$$.json
+# the pkcs12 tests leave this untracked file behind: never let it slip into a commit
+git -C ${1:-/repo} ls-files --error-unmatch pkcs12/test.p12 >/dev/null 2>&1 || rm -f ${1:-/repo}/pkcs12/test.p12
+exit $rc
